@@ -195,7 +195,8 @@ Definition tick (s : state) : option state :=
   | None => None
   end.
 
-(* initialise(stage) followed by run() up to its first wait: a pass, then (unless nothing is active) another *)
+(* initialise(stage) followed by the first _schedule of run().  run() then enters its loop, whose first
+   iteration is an ordinary [tick] before the first wait: the real start of a stage is [Start; Tick]. *)
 Definition start_stage (s : state) : option state :=
   if running s then None
   else
@@ -205,8 +206,7 @@ Definition start_stage (s : state) : option state :=
     if ok && Nat.ltb next nstages then
       let s0 := {| dy := dy s; done := done s; stop := false; cur := Some next; pmq := pmq s; finq := finq s;
                    running := true; verdict := None |} in
-      let s1 := sched_pass s0 in
-      Some (if stage_done s1 next then end_stage s1 next else sched_pass s1)
+      Some (sched_pass s0)
     else None.
 
 (* ---- environment: a task exits *)
@@ -335,12 +335,13 @@ Definition obs_matches (n : nat) (s : state) (o : obs) : bool :=
 
 (* returns the index (from 1) of the first event after which model and implementation differ, 0 if none *)
 Fixpoint check_trace (W : list comp) (fixed : bool) (outcome : nat -> nat -> reason)
-         (s : state) (tr : list (event * obs)) (k : nat) : nat :=
+         (s : state) (tr : list (event * option obs)) (k : nat) : nat :=
   match tr with
   | [] => 0
   | (ev, o) :: r =>
       match step W fixed outcome s ev with
-      | Some s' => if obs_matches (length W) s' o then check_trace W fixed outcome s' r (S k) else S k
+      | Some s' => if match o with Some o => obs_matches (length W) s' o | None => true end
+                   then check_trace W fixed outcome s' r (S k) else S k
       | None => S k
       end
   end.
@@ -348,6 +349,6 @@ Fixpoint check_trace (W : list comp) (fixed : bool) (outcome : nat -> nat -> rea
 Definition outcome_of (tbl : list (list reason)) (c n : nat) : reason :=
   let l := nth c tbl [] in nth (Nat.min n (pred (length l))) l Success.
 
-Definition check_case (k : list comp * bool * list (list reason) * list (event * obs)) : bool :=
+Definition check_case (k : list comp * bool * list (list reason) * list (event * option obs)) : bool :=
   let '(W, fixed, tbl, tr) := k in
   Nat.eqb (check_trace W fixed (outcome_of tbl) state0 tr 0) 0.
